@@ -79,6 +79,12 @@ func accepts(st charClassState, ch rune) bool {
 	return t != nil && t.Value() == string(ch)
 }
 
+// … and as a LATER character of a token: after `lead` (a character the state accepts), is ch still part of the token?
+func acceptsAfter(st charClassState, lead, ch rune) bool {
+	t := st.NextToken(rio.NewStringScanner(string([]rune{lead, ch, lead})), nil)
+	return t != nil && strings.HasPrefix(t.Value(), string([]rune{lead, ch}))
+}
+
 func runWcCase(c *Ctx, kind string, ops []wcOp, probe rune) {
 	ss := make([]string, len(ops))
 	for i, o := range ops {
@@ -88,12 +94,22 @@ func runWcCase(c *Ctx, kind string, ops []wcOp, probe rune) {
 	c.record(op, len(ops) >= 2)
 	c.count("class-state:" + kind)
 	var got, want bool
+	positional := ""
 	st := safeCall(func() string {
 		s := newClassState(kind)
 		for _, o := range ops {
 			applyWc(s, o)
 		}
 		got = accepts(s, probe)
+		// the same answer for a later character of a token, after a character the configured state accepts
+		for _, lead := range []rune{'a', ' ', 'Z', '5'} {
+			if lead != probe && accepts(s, lead) {
+				if after := acceptsAfter(s, lead, probe); after != got {
+					positional = fmt.Sprintf("as the first character of a token U+%04X is accepted: %v; directly after %q: %v", probe, got, string(lead), after)
+				}
+				break
+			}
+		}
 		want = accepts(newClassState(kind), probe) // what the constructor registered
 		for _, o := range ops {
 			if o.clear {
@@ -110,6 +126,8 @@ func runWcCase(c *Ctx, kind string, ops []wcOp, probe rune) {
 	}
 	if got != want {
 		c.fail(Failure{Kind: "oracle", Op: op, Impl: fmt.Sprint(got), Note: fmt.Sprintf("after %s the state %s answers %v for U+%04X; the latest covering registration says %v", strings.Join(ss, " "), kind, got, probe, want)})
+	} else if positional != "" {
+		c.fail(Failure{Kind: "oracle", Op: op, Impl: fmt.Sprint(got), Note: fmt.Sprintf("after %s the state %s: %s - the character map alone decides", strings.Join(ss, " "), kind, positional)})
 	}
 }
 
@@ -120,7 +138,8 @@ func propClassStates(c *Ctx) {
 		{{lo: 0x100, hi: 0xfffe, en: false}, {lo: 0x400, hi: 0x4ff, en: true}, {lo: 0x410, hi: 0x41f, en: false}}, {{lo: 0, hi: 0xfffe, en: true}, {clear: true}},
 		{{lo: 44, hi: 44, en: true}, {lo: 34, hi: 34, en: true}}, {{lo: 0xff, hi: 0x100, en: false}}, {{lo: 0x100, hi: 0x100, en: false}, {lo: 0xff, hi: 0xff, en: false}},
 	}
-	probes := []rune{9, 10, 13, 32, 44, 34, 'a', 'm', 'z', '-', '_', '0', 0xe9, 0xff, 0x100, 0x101, 0x3ff, 0x400, 0x415, 0x420, 0x4ff, 0x500, 0xfffe}
+	hist = append(hist, []wcOp{{lo: 0x300, hi: 0x36f, en: false}}, []wcOp{{lo: 0x300, hi: 0x36f, en: false}, {lo: 0x301, hi: 0x301, en: true}}, []wcOp{{lo: 0x200b, hi: 0x200f, en: false}, {lo: 0xfe00, hi: 0xfe0f, en: false}})
+	probes := []rune{9, 10, 13, 32, 44, 34, 'a', 'm', 'z', '-', '_', '0', 0xe9, 0xff, 0x100, 0x101, 0x300, 0x301, 0x302, 0x36f, 0x3ff, 0x400, 0x415, 0x420, 0x4ff, 0x500, 0x200d, 0xfe0f, 0xfffe}
 	for _, k := range []string{"gw", "ew", "cw", "gb"} {
 		for _, h := range hist {
 			for _, p := range probes {
